@@ -137,6 +137,25 @@ func c18corpus(c *mon.Ctx) []c18font {
 					fonts = append(fonts, c18font{"generated-1-glyf+trailing-unread-table", fonts[1].f, false, raw})
 				}
 			}
+			// the same with an empty table listed at the very end of the file
+			// (it occupies no byte): the data before it - a table that is
+			// copied raw - can still be cut short
+			raw0 := addTable(buf.Bytes(), "zzzz", []byte{})
+			if wf, _ := sfntwalk.Walk(raw0); wf != nil {
+				var last, lastData *sfntwalk.Table
+				for i := range wf.Tables {
+					t := &wf.Tables[i]
+					if last == nil || t.Offset > last.Offset || t.Offset == last.Offset && t.Length == 0 {
+						last = t
+					}
+					if t.Length > 0 && (lastData == nil || t.Offset > lastData.Offset) {
+						lastData = t
+					}
+				}
+				if last != nil && last.Tag == "zzzz" && last.Length == 0 && lastData != nil && lastData.Tag == "gasp" {
+					fonts = append(fonts, c18font{"generated-1-glyf+trailing-empty-table", fonts[1].f, false, raw0})
+				}
+			}
 		}
 	}
 	for _, cf := range corpusFiles(c) {
@@ -477,6 +496,9 @@ func runC18(c *mon.Ctx) {
 					return
 				}
 				k.Class("read-fault:" + readerVariant[u.variant])
+				if cf.raw != nil {
+					k.Class("read-fault:" + cf.name)
+				}
 			} else if err == nil {
 				if u.variant >= 2 || kk == L {
 					if d := diffFonts(ref, g); d != "" {
@@ -493,7 +515,8 @@ func runC18(c *mon.Ctx) {
 		}
 	})
 	c.Require("write-fault:Write:refuse", "write-fault:Write:short", "write-fault:WriteTrueTypePDF:short", "write-fault:WriteOpenTypeCFFPDF:short", "write-fault:cff.Font.Write:refuse",
-		"write-success:Write", "read-fault:truncated/ReaderAt", "read-fault:truncated/Reader", "read-fault:failing/ReaderAt", "read-fault:failing/Reader", "read-success:failing/ReaderAt")
+		"write-success:Write", "read-fault:truncated/ReaderAt", "read-fault:truncated/Reader", "read-fault:failing/ReaderAt", "read-fault:failing/Reader", "read-success:failing/ReaderAt",
+		"read-fault:generated-1-glyf+trailing-unread-table", "read-fault:generated-1-glyf+trailing-empty-table")
 	_ = cff.OpMoveTo
 }
 
